@@ -56,6 +56,7 @@ func TestCheck(t *testing.T) {
 				r.Extra("devices_"+dbKind, w.Devs)
 			}
 		}
+		runConcurrent(r, round)
 	}
 
 	// Coverage gates: the monitor must have seen every kind of decision.
@@ -87,6 +88,12 @@ func TestCheck(t *testing.T) {
 		"db_calls:real:device-id":             1000,
 		"db_calls:real:linked-ip":             80,
 		"db_calls:real:dedicated-ip":          100,
+		"concurrent_requests":                    4000,
+		"concurrent_prior_unknown_dedicated_drops": 16,
+		"concurrent_unknown_dedicated_drops":     100,
+		"concurrent_same_handler_overlap_pairs":  2000,
+		"concurrent_recognised":                  500,
+		"concurrent_anonymous_served":            500,
 		"db_calls:real:human-id":              20,
 	} {
 		r.Require(b, min)
